@@ -71,6 +71,13 @@ def list_from(caller):
     from pyworkers.worker import Worker
     if caller == 'creator':
         return list(Worker.active_children())
+    if caller == 'via-subclass':
+        # the listing is a static method: asked through a subclass it is the same listing
+        from pyworkers.thread import ThreadWorker
+        return list(ThreadWorker.active_children())
+    if caller == 'via-persistent-subclass':
+        from pyworkers.persistent_thread import PersistentThreadWorker
+        return list(PersistentThreadWorker.active_children())
     box = []
     t = threading.Thread(target=lambda: box.append(list(Worker.active_children())))
     t.start()
@@ -122,7 +129,7 @@ def run_history(hist, check_each):
                 # the caller is part of the input: the thread which created the workers, and a thread started just now (the
                 # operating system hands it the identifier of a thread worker that has finished, if there is one)
                 # (a listing prunes: after an explicit "list" step the creator looks first, otherwise the fresh thread does)
-                for caller in (('creator', 'fresh-thread') if op == 'list' else ('fresh-thread', 'creator')):
+                for caller in (('creator', 'fresh-thread', 'via-subclass', 'via-persistent-subclass') if op == 'list' else ('via-subclass', 'fresh-thread', 'creator')):
                     got = list_from(caller)
                     gi = sorted(ws.index(g) if g in ws else -1 for g in got)
                     if gi != wi:
